@@ -3,7 +3,7 @@
    sentinel-valued hashes are inside the quantifier), every table size, every operation.
    Only statements closed by `exact`, plus Print Assumptions. Definitions of WF / WFpin /
    amap / consistent / iid_ok are in HtableProofs.v. *)
-Require Import KV.Base KV.HtableModel KV.HtableProofs.
+Require Import KV.Base KV.HtableModel KV.HtableProofs KV.HtableTrace.
 
 (* lookup = the abstract map; the fuel (one pass over the slots) always suffices: lookups terminate *)
 Theorem c12_lookup_is_map : forall (hashf : Z -> Z) t k, WF hashf t -> lookup t (hashf k) k = amap t k.
@@ -91,6 +91,47 @@ Proof. exact counts_match_WF. Qed.
 Theorem c12_new_table : forall (hashf : Z -> Z) c, WF hashf (new_table c) /\ forall k, amap (new_table c) k = None.
 Proof. exact new_table_WF. Qed.
 
+
+(* ---- whole histories: every protocol-respecting operation list (arun accepts it) ----
+   The concrete table run from new_table produces exactly the outputs of the abstract map
+   machine, refines it after every step, never runs out of fuel, and keeps WF / WFpin. *)
+Theorem c12_trace_refines : forall (hashf : Z -> Z) cap ops a' outs,
+  arun hashf ainit ops = Some (a', outs) ->
+  snd (crun hashf (cinit cap) ops) = outs /\ refined hashf (fst (crun hashf (cinit cap) ops)) a'.
+Proof. exact trace_refines. Qed.
+
+Theorem c12_trace_refines_every_step : forall (hashf : Z -> Z) cap ops1 ops2 a' outs,
+  arun hashf ainit (ops1 ++ ops2) = Some (a', outs) ->
+  exists a1 o1 o2, arun hashf ainit ops1 = Some (a1, o1) /\ outs = o1 ++ o2 /\
+    snd (crun hashf (cinit cap) ops1) = o1 /\ refined hashf (fst (crun hashf (cinit cap) ops1)) a1.
+Proof. exact trace_refines_every_step. Qed.
+
+(* a resident key is found after any suffix of operations on other keys (stores, probes,
+   publishes, abandons, replacements, removals of colliding keys, growth) *)
+Theorem c12_key_never_lost : forall (hashf : Z -> Z) cap ops1 ops2 a1 o1 a2 o2 k x,
+  arun hashf ainit ops1 = Some (a1, o1) -> aget (am a1) k = Some x ->
+  arun hashf a1 ops2 = Some (a2, o2) -> Forall (fun op => touches op k = false) ops2 ->
+  snd (crun hashf (cinit cap) (ops1 ++ ops2 ++ [TLookup k])) = o1 ++ o2 ++ [OLookup (Some x)].
+Proof. exact key_never_lost_output. Qed.
+
+(* a removed or never admitted key is never found again *)
+Theorem c12_no_resurrection : forall (hashf : Z -> Z) cap ops1 ops2 a1 o1 a2 o2 k,
+  arun hashf ainit ops1 = Some (a1, o1) -> aget (am a1) k = None ->
+  arun hashf a1 ops2 = Some (a2, o2) -> Forall (fun op => touches op k = false) ops2 ->
+  lookup (ctab (fst (crun hashf (cinit cap) (ops1 ++ ops2)))) (hashf k) k = None.
+Proof. exact no_resurrection. Qed.
+
+Theorem c12_live_is_count : forall (hashf : Z -> Z) cap ops a outs,
+  arun hashf ainit ops = Some (a, outs) ->
+  live (ctab (fst (crun hashf (cinit cap) ops))) = Z.of_nat (length (am a)) /\
+  live (ctab (fst (crun hashf (cinit cap) ops))) =
+    Z.of_nat (length (contents (ctab (fst (crun hashf (cinit cap) ops))))).
+Proof. exact live_is_count. Qed.
+
+Theorem c12_fuel_always_suffices : forall (hashf : Z -> Z) cap ops a outs,
+  arun hashf ainit ops = Some (a, outs) -> herr (ctab (fst (crun hashf (cinit cap) ops))) = false.
+Proof. exact herr_never. Qed.
+
 Print Assumptions c12_lookup_is_map.
 Print Assumptions c12_lookup_terminates.
 Print Assumptions c12_lookup_is_map_during_probe.
@@ -106,3 +147,9 @@ Print Assumptions c12_unpin.
 Print Assumptions c12_swap.
 Print Assumptions c12_counts_match.
 Print Assumptions c12_new_table.
+Print Assumptions c12_trace_refines.
+Print Assumptions c12_trace_refines_every_step.
+Print Assumptions c12_key_never_lost.
+Print Assumptions c12_no_resurrection.
+Print Assumptions c12_live_is_count.
+Print Assumptions c12_fuel_always_suffices.
